@@ -171,7 +171,13 @@ func buildFile(c secretCase) *ach.File {
 	f := baseFile()
 	switch c.Class {
 	case "account", "name":
-		b, _ := ach.NewBatch(baseHeader(ach.PPD))
+		sec := ach.PPD
+		if len(c.Value)%3 == 1 {
+			// corporate batches: the name column of CTX / ATX entries starts with the four-digit addenda count when
+			// the entry is built by the library, but it is the same 22 columns of the record
+			sec = []string{ach.CTX, ach.ATX}[len(c.Value)/3%2]
+		}
+		b, _ := ach.NewBatch(baseHeader(sec))
 		e := baseEntry(ach.CheckingCredit)
 		if c.Class == "account" {
 			e.DFIAccountNumber = c.Value
@@ -185,7 +191,7 @@ func buildFile(c secretCase) *ach.File {
 		e := baseEntry(ach.CheckingReturnNOCCredit)
 		e.Amount = 0
 		a := ach.NewAddenda98()
-		a.ChangeCode = "C01"
+		a.ChangeCode = []string{"C01", "C02", "C03", "C04", "C05", "C06", "C07", "C09"}[len(c.Value)%8]
 		a.OriginalTrace = "121042880000001"
 		a.OriginalDFI = "12104288"
 		a.CorrectedData = c.Value
